@@ -248,6 +248,9 @@ def guard_group(fn, desc, pol):
                     return v if isinstance(v, str) else None
     return None
 
+def depth_ok(c):
+    return len(c.blocks) <= 40
+
 def _variant_ctors(F, g):
     """{enum: {variants constructed}} in g and its closures (aggregates and constructor fn items)"""
     out = {}
@@ -260,6 +263,12 @@ def _variant_ctors(F, g):
                 if a[0] == "c" and a[1].get("k") == "fn" and "::" in a[1]["path"]:
                     en, v = a[1]["path"].rsplit("::", 1)
                     if en in F.adts: out.setdefault(en, set()).add(v)
+            # constructor functions of the enum: a local fn whose own body builds exactly one variant (new_uint, try_new_str)
+            c = F.fn(mir.callee(t) or "")
+            if c is not None and c.kind != "closure" and depth_ok(c):
+                vs = {(s[2][1]["adt"], s[2][1].get("variant")) for b2, s2, s in c.stmts() if s[0] == "=" and s[2][0] == "agg" and s[2][1].get("k") == "adt" and s[2][1].get("is_enum") and s[2][1]["adt"].startswith("crate::")}
+                if len(vs) == 1:
+                    en, v = next(iter(vs)); out.setdefault(en, set()).add(v)
     return out
 
 def _classifier_context(F, g, depth=0):
